@@ -268,9 +268,61 @@ fn known_shape(case: &Case) -> Option<String> {
             if g.kind != GKind::MaybeNull {
                 continue;
             }
-            if g.lo.is_some() && g.lo == g.hi {
+            // [v, v]; an unbounded end is normalised to the type's extreme value, so (-inf, MIN] and [MAX, +inf) count too
+            let spec_ty = case.cols[g.col as usize].ty;
+            let (tmin, tmax) = match spec_ty {
+                Ty::Date32 => (Some(i32::MIN as i128), Some(i32::MAX as i128)),
+                t => match t.int_range() {
+                    Some((a, b)) => (Some(a), Some(b)),
+                    None => (None, None),
+                },
+            };
+            let single = match (&g.lo, &g.hi) {
+                (Some(a), Some(b)) => a == b,
+                (None, Some(V::I(b))) => Some(*b) == tmin,
+                (Some(V::I(a)), None) => Some(*a) == tmax,
+                _ => false,
+            };
+            if single {
                 return Some("guarantee-maybenull-single-value".to_string());
             }
+        }
+    }
+    // PhysicalExprSimplifier: CAST(x) <regex op> NULL
+    if case.mode.physical {
+        e.visit(&mut |n| {
+            let hit = match n {
+                E::Similar { e, pat, .. } => matches!(**e, E::Cast { .. }) && matches!(**pat, E::Lit(_, V::Null)),
+                E::Bin(op, l, r) if op.is_regex() => matches!(**l, E::Cast { .. }) && matches!(**r, E::Lit(_, V::Null)),
+                _ => false,
+            };
+            if hit && sig.is_none() {
+                sig = Some("physical-unwrap-cast-regex-null".to_string());
+            }
+        });
+        if sig.is_some() {
+            return sig;
+        }
+    }
+    // CAST(decimal AS integer) compared with something: cast unwrapping of a non-injective cast
+    {
+        let tys: Vec<Ty> = case.cols.iter().map(|c| c.ty).collect();
+        let is_dec_to_int = |x: &E| match x {
+            E::Cast { e, to, .. } => to.is_int() && ty_of(e, &|i| tys[i as usize]) == Ty::Dec,
+            _ => false,
+        };
+        e.visit(&mut |n| {
+            let hit = match n {
+                E::Bin(op, l, r) if op.is_cmp() || matches!(op, Op::Distinct | Op::NotDistinct) => is_dec_to_int(l) || is_dec_to_int(r),
+                E::InList { e, .. } | E::Between { e, .. } => is_dec_to_int(e),
+                _ => false,
+            };
+            if hit && sig.is_none() {
+                sig = Some("unwrap-cast-decimal-to-int".to_string());
+            }
+        });
+        if sig.is_some() {
+            return sig;
         }
     }
     // TRY_CAST(x) <cmp> literal / TRY_CAST(x) IN (literals): cast unwrapping
@@ -331,7 +383,7 @@ impl Property for C04 {
             .boxed()
     }
     fn budget(&self, tier: Tier) -> Budget {
-        Budget::new(tier.pick(6_000, 400_000), tier.pick(8, 16)).min_nontrivial(tier.pick(500, 30_000)).case_timeout(60)
+        Budget::new(tier.pick(16_000, 800_000), tier.pick(8, 16)).min_nontrivial(tier.pick(2_000, 80_000)).case_timeout(60)
     }
     fn rule(&self) -> String {
         "type-directed expression tree with functions (depth<=3 quick, 4 thorough) over small-domain columns (nullable or NOT NULL), simplified by ExprSimplifier (canonicalize on/off, max_cycles 1-4, 0-2 guarantees), PhysicalExprSimplifier and simplify_predicates; both sides evaluated by DataFusion on <=200 rows (cross product of domains, restricted to rows satisfying the guarantees); \
